@@ -350,6 +350,24 @@ def _mcp_check(tier, seed):
                                          'detail': f'explain_matching for {t} on {d} disagrees with the report: ' + '; '.join(bad)})
             except Exception as e:
                 findings.append({'prop': 'C20', 'kind': 'explain_unreadable', 'case': 0, 'input': G1, 'data': {}, 'detail': f'explain_matching result for {t} on {d} cannot be read: {e}'})
+        # convert_to_dsl: the DSL text it returns for the JSON ledger parses (through the CLI) to the same transactions (C14)
+        for n, (ev, resp) in zip(solo, solos):
+            if n == 'to_dsl' and 2 in resp and 'result' in resp[2]:
+                try:
+                    text = resp[2]['result']['content'][0]['text']
+                    try:
+                        text = json.loads(text).get('dsl', text) if text.lstrip().startswith('{') else text
+                    except Exception:
+                        pass
+                    open(os.path.join(root, 'ref', 'back.cgt'), 'w').write(text if text.endswith('\n') else text + '\n')
+                    rc1, so1, se1 = run_cli(os.path.join(root, 'ref'), os.path.join(root, 'ref', 'home'), ['parse', 'back.cgt'])
+                    rc2, so2, _ = run_cli(os.path.join(root, 'ref'), os.path.join(root, 'ref', 'home'), ['parse', 'g1.cgt'])
+                    if rc1 != 0 or rc2 != 0 or canon(json.loads(so1)) != canon(json.loads(so2)):
+                        for pr in ('C14', 'C20'):
+                            findings.append({'prop': pr, 'kind': 'mcp_convert_to_dsl', 'case': 0, 'input': text[:1500], 'data': {},
+                                             'detail': f'the DSL returned by convert_to_dsl does not parse back to the ledger it was given (cgt-tool parse exit {rc1}: {se1[-200:]!r})'})
+                except Exception as e:
+                    findings.append({'prop': 'C20', 'kind': 'convert_unreadable', 'case': 0, 'input': G1, 'data': {}, 'detail': f'convert_to_dsl result cannot be read: {e}'})
         # get_fx_rate returns the bundled HMRC rate of exactly that currency and month (C08)
         for n, (ev, resp) in zip(solo, solos):
             if n == 'fx' and 2 in resp and 'result' in resp[2]:
